@@ -1330,7 +1330,10 @@ def run(ctx):
     logging.getLogger('katpoint').setLevel(logging.ERROR)
     logging.disable(logging.CRITICAL)
     if not ctx.model_ok:
-        ctx.extra['note'] = 'no model binary: nothing can be compared'
+        ctx.extra['note'] = ('no model binary: only the v3 time axis is searched (props/c01resyn.py against the documented '
+                             'times computed in Python)')
+        from props import c01resyn
+        c01resyn.run(ctx)
         return
     for f in ctx.findings:
         run_witness(ctx, f['witness'])
@@ -1378,6 +1381,9 @@ def run(ctx):
     c01win.run(ctx)
     # ... and several subarrays: v2 / v3 files opened together (props/c01cat.py, same model)
     c01cat.run(ctx)
+    # the time axis H5DataV3 builds from the file: resynthesis from the ADC counter, wraps, refusals (props/c01resyn.py, wire_1006)
+    from props import c01resyn
+    c01resyn.run(ctx)
     ctx.extra['unanswered_reads'] = ctx.dist.get('unanswered', 0)
     ctx.extra['observation_models_skipped'] = len(SKIPPED)
     if ctx.tier == 'thorough':
@@ -1401,6 +1407,9 @@ def replay(ctx, doc):
     hid = case.get('hid', {})
     if hid.get('kind') == 'witness':
         return run_witness(ctx, hid['witness'])
+    if hid.get('kind') == 'resyn':
+        from props import c01resyn
+        return c01resyn.replay(ctx, hid)
     if hid.get('kind') in ('win', 'win_corpus', 'cat'):
         from props import c01win
         return c01win.replay(ctx, hid)
